@@ -137,3 +137,37 @@ extern "C" void c18_drive_discard_fail(int e) {
     catch (const c18_error &x) { g_caller_saw++; g_caller_code = x.code; }
     c18_probe(1);
 }
+
+// ---- MOVE-ONLY payload (drivers/c09_mo_item.h) through callback_await: the operation's value is an object; the completion reads it and (take) moves it out
+#include "c09_mo_item.h"
+struct c18_mrec { int calls; int has_value; int tag; unsigned moved; int took_tag; unsigned took_moved; int exc_canceled; int exc_error; int exc_code; int exc_other; int calls_at_return; };
+c18_mrec g_mrec;
+struct c18_record_mo_fn {
+    int take;
+    void operator()(await_result<mo_item> r) {
+        g_mrec.calls++;
+        try {
+            mo_item &v = *r; g_mrec.has_value = 1; g_mrec.tag = v.tag; g_mrec.moved = v.moved_cnt;
+            if (take) { mo_item got(std::move(v)); g_mrec.took_tag = got.tag; g_mrec.took_moved = got.moved_cnt; }
+        }
+        catch (const await_canceled_exception &) { g_mrec.exc_canceled++; }
+        catch (const c18_error &e) { g_mrec.exc_error++; g_mrec.exc_code = e.code; }
+        catch (...) { g_mrec.exc_other++; }
+    }
+};
+static void c18_resolve_mo(promise<mo_item> &p, int outcome, int v, int e) {
+    if (outcome == 0) { mo_item it(v); p(std::move(it)); }
+    else if (outcome == 1) { try { throw c18_error{e}; } catch (...) { p(std::current_exception()); } }
+    else { promise<mo_item> dying(std::move(p)); }
+}
+struct c18_op_mo {
+    promise<mo_item> *parked; int before, outcome, v, e;
+    void operator()(promise<mo_item> p) const { if (before) c18_resolve_mo(p, outcome, v, e); else *parked = std::move(p); }
+};
+extern "C" void c18_drive_mo(int outcome, int before, int take, int v, int e) {
+    promise<mo_item> parked;
+    c18_op_mo op{&parked, before, outcome, v, e};
+    g_frame_kind = 5; callback_await<future<mo_item> >(c18_record_mo_fn{take}, op);
+    g_mrec.calls_at_return = g_mrec.calls;
+    if (!before) c18_resolve_mo(parked, outcome, v, e);
+}
